@@ -420,7 +420,73 @@ theorem auth_off_no_gate (cfg : Config) (M : Matcher) (ans : Request → Option 
     checkAuth cfg M ans now c t ch = { conn := c, query := none, deny := none } :=
   checkAuth_disabled cfg M ans now c t ch h
 
-/-! ## 4. a whole history -/
+/-! ## 4. no command at all gets around the gates -/
+
+/-- `identify_no_broker_effect`: IDENTIFY — the one command in front of the TLS gate — and AUTH
+never change the broker, whatever they answer. -/
+theorem identify_no_broker_effect (E : Ext) (cfg : Config) (M : Matcher) (ans : Request → Option Resp)
+    (now : Int) (c : Conn) (b : Broker) (d : IdentifyData) :
+    (step E cfg M ans now c b (.identify d)).broker = b := by
+  unfold step; split
+  · rfl
+  · simp only [exec]; exact execIdentify_broker ..
+
+/-- `no_effect_before_auth`: on an auth-enabled server, in every history of a connection, *no*
+command whatsoever — not only the four gated ones, also FIN / REQ / TOUCH whatever they do, and
+every other or unknown command — changes the broker before a successful AUTH occurred earlier in
+that history; and with TLS required, not before a completed TLS handshake either. -/
+theorem no_effect_before_auth (E : Ext) (cfg : Config) (M : Matcher) (id : Nat) (b0 : Broker)
+    (evs : List Ev) (pre : List Rec) (r : Rec) (post : List Rec)
+    (h : trace E cfg M { conn := Conn.fresh id, broker := b0 } evs = pre ++ r :: post)
+    (now : Int) (ans : Request → Option Resp) (cmd : Cmd)
+    (hev : r.ev = .cmd now ans cmd) (heff : r.res.broker ≠ r.pre.broker) :
+    (cfg.authEnabled = true → ∃ q ∈ pre, IsAuthSuccess q) ∧
+    (cfg.tlsRequired ≠ .no → ∃ q ∈ pre, IsTlsUpgrade cfg q) := by
+  have hm := (trace_mem E cfg M evs _ r (mem_of_split h)).1
+  have hni : cmd.isIdentify = false := by
+    cases cmd with
+    | identify d =>
+      exfalso
+      rw [hev] at hm; simp only [stepEv] at hm
+      rw [hm, identify_no_broker_effect] at heff; exact heff rfl
+    | _ => rfl
+  refine ⟨?_, fun hreq => tls_gate_history E cfg M id b0 evs pre r post h hreq now ans cmd hev hni heff⟩
+  intro hauth
+  by_cases hg : cmd.isGated = true
+  · exact (auth_gate_history E cfg M id b0 evs pre r post h hauth now ans cmd hev hg heff).1
+  have hg' : cmd.isGated = false := by simpa using hg
+  -- not gated: only FIN / REQ / TOUCH can change the broker, and only on a subscribed connection
+  have hm' := hm
+  rw [hev] at hm'; simp only [stepEv] at hm'
+  have hstate : r.pre.conn.state ≠ .init := by
+    by_cases hcl : r.pre.conn.closed = true
+    · rw [step_closed _ _ _ _ _ _ _ _ hcl] at hm'; rw [hm'] at heff; exact absurd rfl heff
+    have hcl' : r.pre.conn.closed = false := by simpa using hcl
+    rw [step_open _ _ _ _ _ _ _ _ hcl'] at hm'
+    by_cases hb : tlsBlocked cfg r.pre.conn = true
+    · rw [exec_tls_blocked _ _ _ _ _ _ _ _ hb hni] at hm'; rw [hm'] at heff; exact absurd rfl heff
+    have hex : exec E cfg M ans now r.pre.conn r.pre.broker cmd = dispatch E cfg M ans now r.pre.conn r.pre.broker cmd := by
+      cases cmd <;> simp [Cmd.isIdentify] at hni <;> simp [exec, hb]
+    rw [hex] at hm'
+    by_cases hch : Cmd.isChanCmd cmd = true
+    · rw [hm'] at heff; exact dispatch_broker_chan E cfg M ans now _ _ cmd hch heff
+    · have hch' : Cmd.isChanCmd cmd = false := by simpa using hch
+      rw [hm', dispatch_broker_other E cfg M ans now _ _ cmd hg' hch'] at heff; exact absurd rfl heff
+  -- so a SUB was accepted earlier; at that moment the connection held authorizations
+  rcases trace_state E cfg M evs _ pre r post h hstate with h0 | ⟨q, hq, now', ans', args, hqe, hqr⟩
+  · simp [Conn.fresh] at h0
+  obtain ⟨pre1, post1, hsplit⟩ := List.append_of_mem hq
+  have h' : trace E cfg M { conn := Conn.fresh id, broker := b0 } evs = pre1 ++ q :: (post1 ++ r :: post) := by
+    rw [h, hsplit]; simp
+  have hqm := (trace_mem E cfg M evs _ q (mem_of_split h')).1
+  rw [hqe] at hqm; simp only [stepEv] at hqm
+  rw [hqm] at hqr
+  have hha := sub_success_hasAuth E cfg M ans' now' _ _ args hauth hqr
+  rcases trace_hasAuth E cfg M evs _ pre1 q (post1 ++ r :: post) h' hha with h0 | ⟨a, ha, hA⟩
+  · simp [Conn.fresh, hasAuthorizations] at h0
+  · exact ⟨a, by rw [hsplit]; exact List.mem_append_left _ ha, hA⟩
+
+/-! ## 5. a whole history -/
 
 /-- a complete session on a TLS-required, auth-enabled server: a publish is refused before TLS (on
 another connection), then IDENTIFY+TLS, a publish refused before AUTH would close — so here: TLS,
